@@ -192,6 +192,17 @@ func renderCase(id int, cs CaseSpec) (files map[string]string, source string) {
 		files[source] = head(dir) + "type A []B\n\ntype B map[string]A\n\ntype C B\n\ntype H struct {\n\tId int64\n\tX  A\n\tY  C\n}\n"
 	case "aliaschain":
 		files[source] = head(dir) + "type Meters int\n\ntype Distance = Meters\n\ntype Length = Distance\n\ntype P struct{ X int }\n\ntype Q = P\n\ntype R = Q\n\ntype H struct {\n\tId int64\n\tL  Length\n\tLs []Length\n\tR  R\n\tM  map[string]R\n}\n"
+	// comment directives and tags naming something that does not exist (a typo): a diagnostic, never a crash
+	case "uniqueunknowncol":
+		files[source] = head(dir) + "// gomacro:SQL ADD UNIQUE(Emial)\ntype Account struct {\n\tId    int64\n\tEmail string\n}\n"
+	case "selectkeyunknowncol":
+		files[source] = head(dir) + "// gomacro:SQL _SELECT KEY(Emial, Id)\ntype Account struct {\n\tId    int64\n\tEmail string\n}\n"
+	case "primarykeyunknowncol":
+		files[source] = head(dir) + "type IdAccount int64\n\ntype Account struct {\n\tId    IdAccount\n\tEmail string\n}\n\n// gomacro:SQL ADD PRIMARY KEY (IdAccount, Tagg)\ntype Link struct {\n\tIdAccount IdAccount\n\tTag       string\n}\n"
+	case "foreignunknowntable":
+		files[source] = head(dir) + "type Account struct {\n\tId    int64\n\tOwner int64 `gomacro-sql-foreign:\"Nobody\" gomacro-sql-on-delete:\"CASCADE\"`\n}\n"
+	case "queryunknowncol":
+		files[source] = head(dir) + "// gomacro:QUERY SetEmail UPDATE Account SET Emial = $v$ WHERE Idd = $w$\ntype Account struct {\n\tId    int64\n\tEmail string\n}\n"
 	case "promotedmember":
 		files[source] = head(dir) + "type Shape interface{ isShape() }\n\ntype Base struct{ N int }\n\nfunc (Base) isShape() {}\n\ntype Circle struct {\n\tBase\n\tR float64\n}\n\ntype H struct {\n\tId int64\n\tS  Shape\n}\n"
 	default:
